@@ -4,7 +4,9 @@
    flag, CoreTiming::Skip with the minimum horizon, the additional tick -- next to plain cycles; abstract
    core with an idle or counting main loop and an interrupt handler; two timers in all modes): for every
    start configuration (24576), every budget n <= 5 (6 thorough) and EVERY way of slicing n into calls the
-   observations agree.  The two pinned configurations must violate: the loop that skips over a latched
+   observations agree.  MC_RunAudio.cfg: the same with the audio port in every state (51840 start configurations:
+   every queue up to capacity 3, every phase incl. overrun, periods 1..3, on/off) taking part in
+   CoreTiming::Skip through Btdmp::GetMaxSkip / Skip; delivered frames and audio interrupts are observed.  The two pinned configurations must violate: the loop that skips over a latched
    interrupt signal (defect D1) and Timer::Skip(0) (defect D2), both repaired in /repo by fix: commits.
 2. Conformance: random guest programs on a real Teakra, each run in one piece, in random slices and with a
    single-stepped prefix; every Run(n) is consumed by exactly n Cycle steps of System.tla (which has no
@@ -21,6 +23,7 @@ FINISH = dict(rule='exhaustive TLC check of the run-loop design model over all s
 def run(ck):
     ck.build('sys_rec')
     ck.mc('RunModel', ck.pick('MC_Run.cfg', 'MC_Run_N6.cfg'), timeout=3400, coverage=False)
+    ck.mc('RunModel', 'MC_RunAudio.cfg', timeout=3400, coverage=False)
     for cfg in ('MC_Run_pinned_d1.cfg', 'MC_Run_pinned_d2.cfg'):
         r = ck.mc('RunModel', cfg, must_hold=False, coverage=False, timeout=1200)
         if r.violated != 'SlicingInvariant':
